@@ -146,7 +146,7 @@ const (
 // entry's base denom / unit denom / counterparty denom / display name / symbol — or are prefixes,
 // suffixes and case variants of registered denoms.  Only the permission gate can refuse them.
 var ghostPool = []string{"uatom", "CUSDC"}                                  // a pool and an LP exist
-var ghostNoPool = []string{"xatom", "cusd", "cusdcx", "Cusdc", "ATOM", "owan"} // no pool: CreatePool, Transfer
+var ghostNoPool = []string{"xatom", "cusd", "cusdcx", "Cusdc", "ATOM", "owan", "cDASH", "Rowan"} // no pool: CreatePool, Transfer
 const voucher = "ibc/27394FB092D2ECCD56123C74F36E4C1F926001CEADA9CA97EA622B25F41E5EB2"
 
 type permEnv struct {
@@ -157,7 +157,7 @@ type permEnv struct {
 }
 
 func newPermEnv() *permEnv {
-	e := newEnv(2, append(append([]string{tokA, tokB, tokC, tokX, voucher}, ghostPool...), ghostNoPool...))
+	e := newEnv(2, append(append([]string{tokA, tokB, tokC, tokX, voucher, strings.ToLower(voucher)}, ghostPool...), ghostNoPool...))
 	pe := &permEnv{env: e, tr: trkeeper.NewMsgServerImpl(e.app.TokenRegistryKeeper), user: e.accts[0], whale: e.accts[1]}
 	for _, p := range append([]string{tokA, tokB}, ghostPool...) {
 		msg := &clptypes.MsgCreatePool{Signer: pe.whale.String(), ExternalAsset: &clptypes.Asset{Symbol: p}, NativeAssetAmount: pow10(24), ExternalAssetAmount: pow10(24)}
@@ -840,6 +840,52 @@ func init() {
 		for t := 0; t < n/6; t++ {
 			pair := [][2]string{{"rowan", tokX}, {tokA, tokX}, {tokX, tokA}, {tokA, "rowan"}, {tokC, tokB}}[rng.Intn(5)]
 			linkTrial(pair[0], pair[1], rng.Intn(32), rng.Intn(32), decs[rng.Intn(5)], decs[rng.Intn(5)], rng.Bool(), []int64{1, 1000, 1000000000000}[rng.Intn(3)])
+		}
+		// ---- spellings: registry messages for a denom that differs ONLY IN LETTER CASE from a listed one.  An
+		// accepted register of X changes the entry of exactly X (appended if X is not listed) and no other; a
+		// deregister of X removes exactly X (chk c12.regstored on the raw bytes); the gated messages on both
+		// spellings follow at once.
+		caseTrial := func(listed, variant string, listedMask, variantMask int, dereg bool) {
+			tctx, _ := base.CacheContext()
+			entries := good(listed)
+			entries = append(entries, entryOf(listed, listedMask, ""))
+			if rng.Chance(1, 2) {
+				entries[0], entries[len(entries)-1] = entries[len(entries)-1], entries[0]
+			}
+			out.Emit("reset", "ok", "reset", false)
+			pe.edit(tctx, out, "", "set", nil, "", entries)
+			if dereg {
+				pe.edit(tctx, out, "case.", "deregister", nil, variant, nil)
+			} else {
+				pe.edit(tctx, out, "case.", "register", entryOf(variant, variantMask, ""), "", nil)
+			}
+			var ms []permMsg
+			for _, d := range []string{listed, variant} {
+				ms = append(ms, permMsg{kind: "transfer", route: "case", token: d, amount: 1000})
+				if _, err := pe.app.ClpKeeper.GetPool(tctx, d); err == nil {
+					ms = append(ms, permMsg{kind: "rm", route: "case", ext: d}, permMsg{kind: "swap", route: "case.e2r", sent: d, received: "rowan"},
+						permMsg{kind: "swap", route: "case.r2e", sent: "rowan", received: d}, permMsg{kind: "add", route: "case.sell", ext: d, r: pow10(18), a: sdk.ZeroUint()})
+				} else if d != voucher && d != strings.ToLower(voucher) && d != "rowan" {
+					ms = append(ms, permMsg{kind: "createpool", route: "case", ext: d})
+				}
+			}
+			for _, m := range ms {
+				mctx, _ := tctx.CacheContext() // each message on its own copy of the edited state
+				pe.run(mctx, m, out)
+			}
+		}
+		casePairs := [][2]string{{tokA, "CUSDC"}, {tokA, "Cusdc"}, {"CUSDC", tokA}, {tokC, "cDASH"}, {"rowan", "Rowan"}, {voucher, strings.ToLower(voucher)}, {strings.ToLower(voucher), voucher}}
+		for _, pr := range casePairs {
+			for _, lm := range []int{0, 1 | 16, 1 | 2 | 4} {
+				for _, vm := range []int{0, 1 | 2, 1 | 2 | 4} {
+					caseTrial(pr[0], pr[1], lm, vm, false)
+				}
+				caseTrial(pr[0], pr[1], lm, 0, true)
+			}
+		}
+		for t := 0; t < n/8; t++ {
+			pr := casePairs[rng.Intn(len(casePairs))]
+			caseTrial(pr[0], pr[1], rng.Intn(32), rng.Intn(32), rng.Chance(1, 3))
 		}
 		// ---- transaction histories (baseapp runMsgs discipline): a chain whose committed state evolves;
 		// every transaction runs ALL its messages on ONE branch, stops at the first failing message
